@@ -14,7 +14,7 @@ RULE = ("for each row of the Doc 9871 field table (BDS 1,0 1,7 4,0 4,4 4,5 5,0 5
         "(where exported), as pyModeS.decoder.bds.bdsXX.<name>, and through the deprecated aliases; oracle: None iff status clear, else "
         "(two's-complement | unsigned) x LSB + offset, angles mod 360; the result must be identical across contexts; cap17: all single bits and random "
         "24-bit masks. non-trivial = sign bit set, raw at 0/max, or status clear with raw != 0"
-        ' Also: one context per field that is constant over the sweep, the frame passed as numpy.str_ and as a user str subclass, the list returned by cap17 edited by the caller before the next call, and more than 2^20 distinct frames decoded by one process (leg volume).')
+        ' Also: one context per field that is constant over the sweep, the frame passed as numpy.str_ and as a user str subclass, the list returned by cap17 edited by the caller before the next call, and more than 2^20 distinct frames decoded by one process (leg volume), the first calls of a freshly imported package made by four threads at once (leg first_use).')
 ASSUMPTIONS = ["field table ref/doc9871.py written from ICAO Doc 9871 (2nd ed.) tables A-2-16..A-2-96", "float results compared to 1e-9 absolute"]
 
 ROWS = D.FIELDS
@@ -165,7 +165,32 @@ def vol_step(a, b, k):
     return None
 
 
+# ---------------------------------------------------------------- first calls of a freshly imported package, four threads at once
+def first_jobs(rng):
+    jobs = []
+    for _ in range(40):
+        row = ROWS[rng.randrange(len(ROWS))]
+        reg, name, ti, sb, sg, first, last, lsb, off, kind = row
+        raw, status, sign = rng.getrandbits(last - first + 1), (rng.getrandbits(1) if sb is not None else 1), (rng.getrandbits(1) if sg is not None else 0)
+        mb = D.place(rng.getrandbits(56), first, last, raw)
+        if sb is not None:
+            mb = D.place(mb, sb, sb, status)
+        if sg is not None:
+            mb = D.place(mb, sg, sg, sign)
+        msg = frames.tohex(frames.commb(rng.choice([20, 21]), rng.getrandbits(24), mb, rng.getrandbits(27)), 112, rng.choice("UL"))
+        exp = D.expected(row, raw, status, sign)
+
+        def judge(got, exp=exp, ti=ti):
+            if got[0] != "ok":
+                return "expected %r" % (exp,)
+            v = got[1] if ti is None else (got[1][ti] if isinstance(got[1], tuple) and len(got[1]) == 2 else "?")
+            return None if same(v, exp) else "Doc 9871 value %r" % (exp,)
+        jobs.append(("decoder.bds.bds%s.%s" % (reg, name), (msg,), judge))
+    return jobs
+
+
 LEGS = [
+    variants.first_use_leg(first_jobs),
     Leg("fields", chk_field, enum=enum_fields, exhaustive=True, doc="every raw value x status x sign of all 34 fields, random contexts"),
     Leg("cap17", chk_cap17, enum=enum_cap17, exhaustive=False, doc="GICB capability bits -> register list"),
     volume.leg(vol_step, 1100000, 2400000, "more than 2^20 distinct random frames decoded by one process, every field decoder in turn, each judged against the field table; revisits and four concurrent callers at the end"),
